@@ -158,8 +158,9 @@ theorem winv_step {cfg : Config} (hv : cfg.valid) {s s' : State} (l : Label)
     rw [step_add_def] at hst
     split at hst <;> cases hst <;> simpa [WInv] using hw
   | close => simp only [step] at hst; cases hst; simpa [WInv] using hw
+  | runCall => simp only [step] at hst; cases hst; simpa [WInv] using hw
   | cancel => simp only [step] at hst; cases hst; simpa [WInv] using hw
-  | runCall | run | top | tokenGiveUp | exitLoop | advance _ | closeRet | consume | senderGiveUp | runRet =>
+  | run | runErrRet | top | tokenGiveUp | exitLoop | advance _ | closeRet | consume | senderGiveUp | runRet =>
     simp only [step] at hst
     split at hst <;> cases hst <;> simpa [WInv] using hw
 
@@ -232,8 +233,9 @@ theorem ovf_step_of_noovf {cfg : Config} (hv : cfg.valid) (hn : NoOvf cfg) {s s'
     rw [step_add_def] at hst
     split at hst <;> cases hst <;> simpa using ho
   | close => simp only [step] at hst; cases hst; simpa using ho
+  | runCall => simp only [step] at hst; cases hst; simpa using ho
   | cancel => simp only [step] at hst; cases hst; simpa using ho
-  | runCall | run | top | tokenGiveUp | exitLoop | advance _ | closeRet | consume | senderGiveUp | runRet =>
+  | run | runErrRet | top | tokenGiveUp | exitLoop | advance _ | closeRet | consume | senderGiveUp | runRet =>
     simp only [step] at hst
     split at hst <;> cases hst <;> simpa using ho
 
